@@ -611,4 +611,116 @@ theorem pli_closed (cl : List Pt) (hc : Closed cl) (xv v : Rat)
     · simp only [Bool.and_eq_true, decide_eq_true_eq, ge_iff_le]
       exact ⟨le_of_lt h1, le_of_lt h2⟩
 
+/-! ## closing the polygon (`if px[0] != px[-1] or py[0] != py[-1]`) -/
+
+theorem crossH_self (a p : Pt) : crossH a a p = false := crossH_same_side a a p rfl
+
+theorem onSeg_self (a p : Pt) (h : onSeg a a p = true) : p = a := by
+  unfold onSeg at h
+  simp only [Bool.and_eq_true, decide_eq_true_eq, min_self, max_self] at h
+  obtain ⟨⟨⟨⟨_, h1⟩, h2⟩, h3⟩, h4⟩ := h
+  cases p; cases a
+  simp only [Pt.mk.injEq]
+  exact ⟨le_antisymm h2 h1, le_antisymm h4 h3⟩
+
+theorem closeIfOpen_cases (vs : List Pt) :
+    closeIfOpen vs = vs ∧ Closed vs ∨
+    ∃ v rest, vs = v :: rest ∧ closeIfOpen vs = vs ++ [v] := by
+  cases vs with
+  | nil => left; exact ⟨rfl, rfl⟩
+  | cons v rest =>
+    unfold closeIfOpen
+    rw [List.head?_cons, List.getLast?_eq_some_getLast (by simp)]
+    simp only
+    by_cases h : v ≠ (v :: rest).getLast (by simp)
+    · right; exact ⟨v, rest, rfl, by simp [h]⟩
+    · left
+      have h' : v = (v :: rest).getLast (by simp) := by simpa using h
+      refine ⟨by simp [h], ?_⟩
+      unfold Closed
+      rw [List.getLast?_eq_some_getLast (by simp), ← h']
+      rfl
+
+theorem closeIfOpen_closed (vs : List Pt) : Closed (closeIfOpen vs) := by
+  rcases closeIfOpen_cases vs with ⟨h, hc⟩ | ⟨v, rest, hvs, h⟩
+  · rw [h]; exact hc
+  · rw [h, hvs]
+    unfold Closed
+    rw [List.cons_append, ← List.cons_append, List.getLast?_concat]
+    rfl
+
+theorem cyclicEdges_closeIfOpen (vs : List Pt) :
+    cyclicEdges (closeIfOpen vs) = cyclicEdges vs ∨
+    ∃ v, v ∈ vs ∧ cyclicEdges (closeIfOpen vs) = cyclicEdges vs ++ [(v, v)] := by
+  rcases closeIfOpen_cases vs with ⟨h, _⟩ | ⟨v, rest, hvs, h⟩
+  · left; rw [h]
+  · right
+    refine ⟨v, by rw [hvs]; simp, ?_⟩
+    rw [h, hvs]
+    have : (v :: rest) ++ [v] = v :: (rest ++ [v]) := rfl
+    rw [this, cyclicEdges_cons]
+    have hl : (v :: (rest ++ [v])).getLast (by simp) = v := by
+      rw [List.getLast_cons (by simp)]; simp
+    rw [hl]
+    rfl
+
+theorem evenOdd_closeIfOpen (vs : List Pt) (p : Pt) : evenOdd (closeIfOpen vs) p = evenOdd vs p := by
+  unfold evenOdd
+  rcases cyclicEdges_closeIfOpen vs with h | ⟨v, _, h⟩
+  · rw [h]
+  · rw [h, List.map_append, xorAll_append]
+    simp [xorAll, crossH_self]
+
+theorem onPolyBoundary_closeIfOpen (vs : List Pt) (p : Pt) :
+    onPolyBoundary (closeIfOpen vs) p = onPolyBoundary vs p := by
+  unfold onPolyBoundary
+  rcases cyclicEdges_closeIfOpen vs with h | ⟨v, hv, h⟩
+  · rw [h]
+  · rw [h, List.any_append]
+    cases hseg : onSeg v v p with
+    | false => simp [hseg]
+    | true =>
+      have hp := onSeg_self v p hseg
+      obtain ⟨e, he, h1⟩ := vertex_starts_edge vs v hv
+      have : (cyclicEdges vs).any (fun e => onSeg e.1 e.2 p) = true := by
+        rw [List.any_eq_true]
+        refine ⟨e, he, ?_⟩
+        rw [hp, ← h1]
+        exact onSeg_left _ _
+      simp [this]
+
+/-- **`polygon_line_intersections` is correct**: for every polygon (open or closed vertex list,
+convex or not, self-intersecting or not), every vertical line `x = xv` and every ordinate `v`
+with `(xv, v)` off the polygon's boundary, `v` lies in one of the returned segments iff
+`(xv, v)` is inside the polygon (even-odd rule as evaluated by matplotlib). -/
+theorem pli_correct (vs : List Pt) (xv v : Rat) (hoff : onPolyBoundary vs ⟨xv, v⟩ = false) :
+    ((polygonLineIntersections vs xv).any fun s => decide (v ≥ s.1) && decide (v ≤ s.2)) =
+      evenOdd vs ⟨xv, v⟩ := by
+  unfold polygonLineIntersections
+  have := pli_closed (closeIfOpen vs) (closeIfOpen_closed vs) xv v
+    (by rw [onPolyBoundary_closeIfOpen]; exact hoff)
+  rw [evenOdd_closeIfOpen] at this
+  exact this
+
+/-! ## transposition and the boundary -/
+
+theorem onSeg_swap (a b p : Pt) : onSeg a.swap b.swap p.swap = onSeg a b p := by
+  unfold onSeg Pt.swap
+  simp only
+  rw [Bool.eq_iff_iff]
+  simp only [Bool.and_eq_true, decide_eq_true_eq]
+  constructor
+  · rintro ⟨⟨⟨⟨h0, h1⟩, h2⟩, h3⟩, h4⟩
+    exact ⟨⟨⟨⟨h0.symm, h3⟩, h4⟩, h1⟩, h2⟩
+  · rintro ⟨⟨⟨⟨h0, h1⟩, h2⟩, h3⟩, h4⟩
+    exact ⟨⟨⟨⟨h0.symm, h3⟩, h4⟩, h1⟩, h2⟩
+
+theorem onPolyBoundary_swap (vs : List Pt) (p : Pt) :
+    onPolyBoundary (vs.map Pt.swap) p.swap = onPolyBoundary vs p := by
+  unfold onPolyBoundary
+  rw [cyclicEdges_map, List.any_map]
+  congr 1
+  funext e
+  exact onSeg_swap e.1 e.2 p
+
 end GlueVerif.C09.Lemmas
